@@ -15,6 +15,7 @@ def program_pool(ctx, n_fuzz, n_unknown=40, guards=True, flags_for_guards=(0,), 
     fz = fz + [(p, e) for p, e, _ in ot]
     pool += [(p, e, "flagsens[f=%d %s]" % (bit, what)) for p, e, bit, what in gen_prog.flag_sensitive_programs(r, 1 if n_fuzz < 2000 else 3)]
     pool += [(p, e, "shape") for p, e in gen_prog.small_programs(r)]
+    pool += [(p, e, "composed") for p, e in gen_prog.composed_programs(r, max(150, n_fuzz // 3))]
     pool += [(p, e, "unknown") for p, e in gen_prog.unknown_op_programs(r, n_unknown)]
     if guards and fz:
         for f in flags_for_guards:
@@ -34,6 +35,23 @@ def pick_flags(r, tag, p=0.15, exclude=0, include=0):
         f = (f | bit) if r.random() < 0.5 else (f & ~bit)
         f = (f | FLAG["NEW_COST_MODEL"]) if r.random() < 0.5 else (f & ~FLAG["NEW_COST_MODEL"])
     return (f | include) & ~exclude
+
+
+def flag_variants(r, tag, p=0.15, exclude=0, include=0):
+    """like pick_flags, but a flagsens program gets all four combinations of (its deciding bit,
+    NEW_COST_MODEL) over one random base: size/shape boundaries that only matter under one
+    combination are then met on every run instead of with probability 1/4"""
+    if not tag.startswith("flagsens[f="):
+        return [pick_flags(r, tag, p, exclude, include)]
+    bit = int(tag.split("=")[1].split()[0])
+    base = gen_prog.random_flags(r, p) & ~bit & ~FLAG["NEW_COST_MODEL"]
+    out = []
+    for b in (0, bit):
+        for n in (0, FLAG["NEW_COST_MODEL"]):
+            f = ((base | b | n) | include) & ~exclude
+            if f not in out:
+                out.append(f)
+    return out
 
 
 def canon_run(s):
